@@ -237,8 +237,17 @@ def r3(ctx: Context, prs, sites) -> None:
     ok = "auto_final_invocation_purge_hours * 3600" in ta and "auto_final_invocation_purge_hours * 3600" in ts_ and "time() -" in ta and "time() -" in ts_
     ctx.add("R3", "auto-purge-threshold::same-quantity", ok, a.loc(), "" if ok else "the thresholds are computed differently")
     # --- claim expiry
-    for meth in ("claim_trigger_run",):
-        a, s = by[("BaseTrigger", meth)]
+    for meth in ("claim_trigger_run", "claim_trigger_execution"):
+        if ("BaseTrigger", meth) in by:
+            a, s = by[("BaseTrigger", meth)]
+        else:
+            # not declared abstract in the base class: take the two implementations directly
+            a, s = ctx.repo.cls("MemTrigger").methods.get(meth), ctx.repo.cls("SQLiteTrigger").methods.get(meth)
+            if a is None and s is None:
+                continue
+            if a is None or s is None:
+                ctx.fail("R3", f"{meth}::expiry-operator", (a or s).loc(), f"{meth} exists on one trigger backend only")
+                continue
         ops = []
         for f in (a, s):
             o = None
